@@ -194,6 +194,14 @@ structure St where
   errKinds : List String := []
   dupAdmitted : Nat := 0
   foreignResolved : Nat := 0
+  -- concurrent tier (monitor only)
+  conc : Bool := false
+  cRegs : List (Nat × Nat × Nat) := []       -- (hash, id, amt) of admitted registrations
+  cRes : List (Nat × Nat × String) := []     -- (hash, id, "S"|"F") of successful resolutions
+  cInit : List Nat := []                     -- hashes whose InitPayment succeeded
+  cFinal : List (Nat × Nat) := []            -- hash ↦ final status
+  concCases : Nat := 0
+  concOps : Nat := 0
 
 def mget (m : List (Nat × MP)) (h : Nat) : Option MP := m.lookup h
 def mset (m : List (Nat × MP)) (h : Nat) (v : MP) : List (Nat × MP) := (h, v) :: m.filter (·.1 != h)
@@ -207,8 +215,10 @@ def mismatch (s : St) (detail : String) : IO St := do
   IO.println s!"MISMATCH case={s.caseId} line={s.lines} {detail}"
   return { s with mismatches := s.mismatches + 1 }
 
-def monitor (s : St) (clause detail : String) : IO St := do
-  let tag := if s.dup then " dup=1" else ""
+/-- `dupTag`: the failure is attributable solely to an admitted duplicate attempt id (the known
+    KVStore overwrite); only such lines carry `dup=1`. -/
+def monitor (s : St) (clause detail : String) (dupTag : Bool := false) : IO St := do
+  let tag := if dupTag then " dup=1" else ""
   IO.println s!"MONITOR case={s.caseId} clause={clause} line={s.lines} {detail}{tag}"
   return { s with monitorFails := s.monitorFails + 1 }
 
@@ -233,7 +243,7 @@ def shapeConsistent (value amt : Nat) (a : Shape) (inflight : List LE) : Bool :=
     | none => amt == value && inflight.all (fun e => !e.shape.blinded && e.shape.mpp.isNone)
 
 /-- clauses that only need the implementation's own dump. -/
-def checkDump (s : St) (h : Nat) (d : Dump) : IO St := do
+def checkDump (s : St) (h : Nat) (d : Dump) (hist : Bool := true) : IO St := do
   let mut s := { s with dumps := s.dumps + 1,
                         stSeen := if s.stSeen.contains d.st then s.stSeen else d.st :: s.stSeen }
   let infl := d.htlcs.any (·.st == "I")
@@ -252,6 +262,7 @@ def checkDump (s : St) (h : Nat) (d : Dump) : IO St := do
   if d.rem + sent != d.value || d.nif != (d.htlcs.filter (·.st == "I")).length
       || d.hs != b01 setl || d.pf != b01 (!setl && d.reason.isSome) then
     s ← monitor s "state-fields" s!"h={h} rem={d.rem} nif={d.nif} hs={d.hs} pf={d.pf} inconsistent with attempts (sent={sent}, value={d.value})"
+  if !hist then return s
   -- history clauses
   match lget s.lastSt h with
   | some 3 =>
@@ -278,18 +289,99 @@ def bumpErr (s : St) (impl : String) : St :=
   else { s with errOps := s.errOps + 1,
                 errKinds := if s.errKinds.contains impl then s.errKinds else impl :: s.errKinds }
 
+/-- concurrent tier: no model replay; the dump-local clauses on every returned payment and an
+    order-insensitive ledger check on the quiescent final state. -/
+def stepConc (s : St) (ws : List String) (isFinal : Bool) : IO St := do
+  let opName := ws.headD "?"
+  let ans := answer ws
+  let impl := ans.headD "?"
+  let mut s := bumpErr { s with ops := s.ops + 1, concOps := s.concOps + 1 } impl
+  if impl == "panic" then
+    s ← monitor s "panic" s!"{opName} panicked"
+  let hN := (kvNat? ws "h").getD 0
+  let dump := if impl == "ok" then parseDump ans else none
+  match dump with
+  | some d => if opName != "inflight" then s ← checkDump s hN d false
+  | none => pure ()
+  match opName with
+  | "init" =>
+    if impl == "ok" then
+      if s.cInit.contains hN then
+        s ← monitor s "no-reinit" s!"h={hN} InitPayment succeeded twice under concurrency"
+      s := { s with cInit := hN :: s.cInit, reinitOk := s.reinitOk + 1 }
+    else
+      s := { s with reinitRefused := s.reinitRefused + 1 }
+  | "reg" =>
+    if impl == "ok" then
+      s := { s with regOk := s.regOk + 1,
+                    cRegs := (hN, (kvNat? ws "id").getD 0, (kvNat? ws "amt").getD 0) :: s.cRegs }
+    else if impl == "ValueExceedsAmt" then
+      s := { s with regExceed := s.regExceed + 1 }
+  | "settle" | "failatt" =>
+    if impl == "ok" then
+      let id := (kvNat? ws "id").getD 0
+      let st := if opName == "settle" then "S" else "F"
+      s := if opName == "settle" then { s with settles := s.settles + 1 } else { s with failAtts := s.failAtts + 1 }
+      if s.cRes.any (fun (_, i, _) => i == id) then
+        s ← monitor s "resolve-gate" s!"h={hN} attempt {id} resolved twice under concurrency"
+      s := { s with cRes := (hN, id, st) :: s.cRes }
+  | "fetch" =>
+    if isFinal then
+      match dump with
+      | none =>
+        if s.cInit.contains hN then
+          s ← monitor s "fetch-truth" s!"h={hN} final fetch={impl} for an initiated payment"
+      | some d =>
+        if !(s.cInit.contains hN) then
+          s ← monitor s "fetch-truth" s!"h={hN} a payment exists that no InitPayment created"
+        let regs := s.cRegs.filter (fun (h, _, _) => h == hN)
+        -- (lines are in completion order, so this is checked once everything has been logged)
+        -- attempt ids are unique within a concurrent case
+        for (h, i, _) in s.cRes do
+          if h == hN && !(s.cRegs.any (fun (_, j, _) => j == i)) then
+            s ← monitor s "resolve-gate" s!"h={hN} attempt {i} resolved but its registration was not admitted"
+          if h != hN && regs.any (fun (_, j, _) => j == i) then
+            s ← monitor s "resolve-foreign-attempt" s!"h={h} id={i}: the call resolved an attempt of payment h={hN}"
+        let exp : List LE := regs.map (fun (_, id, amt) =>
+          let st := match s.cRes.find? (fun (_, i, _) => i == id) with
+            | some (_, _, st) => st
+            | none => "I"
+          ⟨id, amt, ⟨false, 0, none⟩, st⟩)
+        if dumpKey d != ledgerKey exp then
+          s ← monitor s "attempts-track" s!"h={hN} final attempts {dumpKey d} differ from the admitted history {ledgerKey exp}"
+        let sent := (exp.filter (·.st != "F")).foldl (fun acc e => acc + e.amt) 0
+        if sent > d.value then
+          s ← monitor s "never-overpay" s!"h={hN} concurrently admitted settled+inflight amounts {sent} > value={d.value}"
+        s := { s with cFinal := (hN, d.st) :: s.cFinal }
+  | "inflight" =>
+    if isFinal && impl == "ok" then
+      let want := ([0, 1, 2] : List Nat).filter (fun h => match s.cFinal.lookup h with
+        | some st => st == 1 || st == 2
+        | none => false)
+      let wantS := if want.isEmpty then "-" else ",".intercalate (want.map toString)
+      if (kv? ans "set") != some wantS then
+        s ← monitor s "inflight-set" s!"final FetchInFlightPayments={(kv? ans "set").getD "?"} but the non-terminal payments are {wantS}"
+  | _ => pure ()
+  return s
+
 def step (s : St) (line : String) : IO St := do
   let s := { s with lines := s.lines + 1 }
   let ws := words line
   match ws with
   | "FACT" :: _ => return s
-  | "CASE" :: id :: _ =>
+  | "CASE" :: id :: rest =>
+    let isConc := (kv? rest "kind") == some "conc"
     let s := { s with caseId := id, store := Store.empty, mon := [], lastSt := [], dup := false,
-                      cases := s.cases + 1 }
+                      cases := s.cases + 1, conc := isConc, cRegs := [], cRes := [], cInit := [],
+                      cFinal := [], concCases := s.concCases + (if isConc then 1 else 0) }
     return s
   | ["END"] => return s
   | [] => return s
   | opName :: _ =>
+    if s.conc then
+      let isFinal := opName == "final"
+      let ws' := if isFinal || opName.startsWith "g=" then ws.drop 1 else ws
+      return ← stepConc s ws' isFinal
     let ans := answer ws
     let impl := ans.headD "?"
     let implStr := " ".intercalate ans
@@ -370,7 +462,7 @@ def step (s : St) (line : String) : IO St := do
           if m.ledger.any (·.id == id) then
             -- duplicate attempt id admitted: the store overwrote the record of an attempt
             s := { s with dup := true, dupAdmitted := s.dupAdmitted + 1 }
-            s ← monitor s "reg-dup-id" s!"h={hN} attempt id {id} admitted twice; the earlier attempt's record is overwritten"
+            s ← monitor s "reg-dup-id" s!"h={hN} attempt id {id} admitted twice; the earlier attempt's record is overwritten" true
             -- exposure no longer visible in the stored attempts: the old amount of an overwritten
             -- in-flight record, or the new amount when the record stays marked failed
             let lostNow := (m.ledger.filter (fun e => e.id == id)).foldl
@@ -381,7 +473,9 @@ def step (s : St) (line : String) : IO St := do
           else
             m := { m with ledger := m.ledger ++ [⟨id, amt, shape, "I"⟩] }
           if m.sent + m.lost > m.value then
-            s ← monitor s "never-overpay" s!"h={hN} admitted settled+inflight amounts {m.sent + m.lost} > value={m.value} after attempt {id} amt={amt}"
+            -- known only when the stored attempts alone are within the amount and the excess
+            -- comes from records overwritten by a duplicate id
+            s ← monitor s "never-overpay" s!"h={hN} admitted settled+inflight amounts {m.sent + m.lost} (of which {m.lost} no longer visible in the store) > value={m.value} after attempt {id} amt={amt}" (m.sent ≤ m.value && m.lost > 0)
           if m.sent == m.value then s := { s with regFull := s.regFull + 1 }
           s := { s with mon := mset s.mon hN m }
       else if impl == "ValueExceedsAmt" then
@@ -472,5 +566,7 @@ def main (args : List String) : IO Unit := do
   IO.println s!"STAT statuses_seen={s.stSeen.length}"
   IO.println s!"STAT dup_ids_admitted={s.dupAdmitted}"
   IO.println s!"STAT foreign_attempts_resolved={s.foreignResolved}"
+  IO.println s!"STAT concurrent_cases={s.concCases}"
+  IO.println s!"STAT concurrent_ops={s.concOps}"
   IO.println s!"STAT mismatches={s.mismatches}"
   IO.println s!"STAT monitor_failures={s.monitorFails}"
